@@ -19,6 +19,7 @@ type cvConn struct {
 	SkipVerify bool   `json:"skip_verify"`
 	Clock      int    `json:"clock"` // hours added to the real time for Config.Time
 	RemoveSNI  bool   `json:"remove_sni"`
+	SetSNI     string `json:"setsni"` // "" = no call; "-empty-" = SetSNI(""); else SetSNI(value) after BuildHandshakeState
 }
 
 type cvScn struct {
@@ -85,6 +86,16 @@ func init() {
 					Time: func() time.Time { return clock }}
 				rm := cc.RemoveSNI && id.Client != tls.HelloGolang.Client // RemoveSNIExtension is not available for HelloGolang
 				r := hlib.RunHandshake(ccfg, scfg, id, hlib.HSOpts{Timeout: 5 * time.Second, Echo: []int{3}, Prep: func(u *tls.UConn) error {
+					if cc.SetSNI != "" {
+						if err := u.BuildHandshakeState(); err != nil {
+							return err
+						}
+						v := cc.SetSNI
+						if v == "-empty-" {
+							v = ""
+						}
+						u.SetSNI(v)
+					}
 					if rm {
 						return u.RemoveSNIExtension()
 					}
